@@ -160,7 +160,9 @@ def function_cases(draw):
     else:
         shape = draw(st.lists(st.integers(1, 6), min_size=1, max_size=2))
         aff = draw(st.booleans())
-        c["hp"] = {"t": "ln", "shape": shape, "affine": aff, "bias": draw(st.booleans()) if aff else True, "eps": 1e-5}
+        # eps matters when the variance of the rows is not large compared with it: small magnitudes and larger eps values
+        c["hp"] = {"t": "ln", "shape": shape, "affine": aff, "bias": draw(st.booleans()) if aff else True, "eps": draw(st.sampled_from([1e-5, 1e-5, 1e-3, 1e-1]))}
+        c["mag"] = draw(st.sampled_from([1.0, 0.1, 0.03, 0.01, 3e-3, 8.0]))
         if c["aq"] == "none":
             c["aq"] = "qint8"
     return c
